@@ -35,11 +35,7 @@ theorem updIndexI_cases (ci : List CIx) (d : Int) (x : XIndex) :
 
 theorem InvF.step {σ : St} (h : InvF σ) (op : Op) : InvF (step σ op) := by
   cases op with
-  | tick dt =>
-    simp only [Ix.step]
-    split
-    · exact ⟨h.iqPhase, h.halfFresh, h.fresh, h.iqFresh, h.logF⟩
-    · exact h
+  | tick dt => exact ⟨h.iqPhase, h.halfFresh, h.fresh, h.iqFresh, h.logF⟩
   | alter d => exact ⟨h.iqPhase, h.halfFresh, h.fresh, h.iqFresh, h.logF⟩
   | load sid =>
     obtain ⟨_, _, e3, e4, _, e6, e7, e8⟩ := loadShard_other sid σ
@@ -171,7 +167,7 @@ theorem InvF.step {σ : St} (h : InvF σ) (op : Op) : InvF (step σ op) := by
       · intro hc
         rcases hc with hc | hc | hc <;> (split at hc <;> exact absurd hc (by simp))
       · intro q hq hqf
-        rcases mem_expiredI (mem_sortI.mp hq) with ⟨x, hx, _, rfl⟩ | ⟨n, hn, _, rfl⟩
+        rcases mem_expiredI (mem_sortI.mp hq) with ⟨x, hx, _, _, rfl⟩ | ⟨n, hn, _, rfl⟩
         · exact hf.1 x hx hqf
         · exact hf.2 n hn
     · exact h
@@ -197,7 +193,7 @@ theorem InvF.step {σ : St} (h : InvF σ) (op : Op) : InvF (step σ op) := by
         have : ev ∈ (Ix.step σ (.procI o)).log := by
           simp only [Ix.step, hp, hq]
           exact hev
-        rcases step_log (.procI o) this with hold | hs | ⟨q2, rest2, _, hq2, _, _, e3, _, e5, e6, _⟩
+        rcases step_log (.procI o) this with hold | hs | ⟨q2, rest2, _, hq2, _, _, e3, _, e5, e6, _, _, _⟩
         · exact h.logF ev hold hk hf
         · exact absurd hs hk
         · have : q2 = q := by
